@@ -109,6 +109,28 @@ def _run(ctx):
             else:
                 ctx.harness_error("C07", exc)
             continue
+        if i % 8 == 0:
+            # history: writing result tables (all volume-base keywords) must leave the reported values as they were
+            import os, shutil, tempfile
+            here, tmpd = os.getcwd(), tempfile.mkdtemp(prefix="c07-")
+            before = {k: numpy.array(v_, copy=True) for k, v_ in adi.items()}
+            try:
+                os.chdir(tmpd)
+                vb.write_variables(["cij", "cij_t", "bm_VRH", "G_VRH", "vp", "vs", "bm_V", "bm_R", "G_V", "G_R"])
+                os.chdir(here)
+                if any(not numpy.array_equal(before[k], numpy.asarray(calc.modulus_adiabatic[k])) for k in before):
+                    ctx.violation("history:writing-tables-changes-the-stiffness", f"{system}: modulus_adiabatic differs after write_variables", case_id)
+                else:
+                    judge_vrh(ctx, calc, vb, case_id, tag=f"{system}/after-writing")
+                ctx.count("rejudged_after_writing")
+            except Exception as exc:
+                os.chdir(here)
+                if classify_exception(exc) == "code":
+                    ctx.violation(f"write-raises:{type(exc).__name__}:{exc_site(exc)}", f"{system}: {exc_text(exc)}", case_id)
+                else:
+                    ctx.harness_error("C07.write", exc)
+            finally:
+                shutil.rmtree(tmpd, ignore_errors=True)
         kv, kr = numpy.asarray(vb.bulk_modulus_voigt), numpy.asarray(vb.bulk_modulus_reuss)
         aniso = bool(numpy.any(numpy.abs(kv - kr) > 1e-9 * numpy.abs(kv)) or
                      numpy.any(numpy.abs(numpy.asarray(vb.shear_modulus_voigt) - numpy.asarray(vb.shear_modulus_reuss)) > 1e-9 * numpy.abs(kv)))
